@@ -5,6 +5,7 @@ from ..expr import show, walk, last, field_of, strip_wrappers, strip_casts, shor
 from ..facts import AnalysisBroken
 from ..predabs import Vocab, PredAbs, A, Not, And, Or, T, F, translate, total, known_when
 from ..rules import common
+from .. import finite
 
 TITLE = "Every accepted task runs exactly once before pool shutdown completes"
 TECHNIQUE = 'custom static analysis over clang-14 CFG facts: must-lockset, condition-variable discipline, exception-edge modelling for task invocation, counting rules over worker bookkeeping'
@@ -21,7 +22,9 @@ EXPLANATION = (
     "empty — either `_shutdown && _tasks.empty()` or the false result of wait_for(lock, d, pred), whose meaning (predicate false under the "
     "lock) is built into the abstraction; R5 destruction and stop set the flag under the lock, notify all and pass through the join loop; "
     "R6 the result-returning submit wraps a packaged_task whose invocation is the queued closure; R7 every insertion into the worker map is "
-    "in the critical section that tested the size against the maximum (thread cap); R8 condition-variable discipline for the worker wait.")
+    "in the critical section that tested the size against the maximum (thread cap); R8 condition-variable discipline for the worker wait; "
+    "R10 the worker counts started without a cap test (constructor, start()) are evaluated exactly from the constructor's initialisers and never exceed "
+    "_maxSize, and every return of shutdown() is behind the join, a wait, or a mutex the joining caller holds (known finding: second shutdown()).")
 NOT_DECIDED = ["the polling drains (`_activeThreads == 0 && pending == 0` sampled with sleeps) — timing; the joins of R5 carry the 'returns only after every accepted task finished' clause",
                "fairness between workers", "the instrumentation counters"]
 
@@ -432,6 +435,162 @@ def r9(ctx, r):
 
 
 
+def _subst_members(n, inits, free):
+    """copy of expression tree n with every read of a member replaced by its constructor initialiser (a tree over the constructor's
+    parameters); members listed in `free` become free variables of that name"""
+    n = strip_casts(n) if n.get("k") == "cast" and n.get("implicit") else n
+    if n.get("k") == "member":
+        if n["n"] in free:
+            return {"k": "var", "n": free[n["n"]], "t": "bool"}
+        if n["n"] in inits:
+            return inits[n["n"]]
+        raise finite.NotPure("member %s has no constructor initialiser" % n["n"])
+    out = {}
+    for k, v in n.items():
+        if isinstance(v, dict):
+            out[k] = _subst_members(v, inits, free)
+        elif isinstance(v, list):
+            out[k] = [_subst_members(x, inits, free) if isinstance(x, dict) else x for x in v]
+        else:
+            out[k] = v
+    return out
+
+
+def r10(ctx, r):
+    """(a) the workers started unconditionally (constructor, start()) never exceed the maximum; (b) a shutdown() that finds the
+    shutdown already signalled does not return before the first caller has joined the workers"""
+    fb, la = ctx.fb(), ctx.locks()
+    ctors = [f for f in fb.functions if f.ok and f.kind == "ctor" and f.name == TP + "::<ctor>" and f.file.endswith(FILE)]
+    if len(ctors) != 1:
+        raise AnalysisBroken("ThreadPool constructors: %d" % len(ctors))
+    ctor = ctors[0]
+    inits = {}
+    for e in ctor.elems():
+        if e.kind == "init" and e.raw.get("field"):
+            v = e.raw["v"]
+            if v.get("k") == "ilist" and len(v.get("vals", [])) == 1:
+                v = v["vals"][0]
+            inits[e.raw["field"]] = v
+    MAXF, SCALE = TP + "::_maxSize", TP + "::_workerScaling"
+    if MAXF not in inits:
+        raise AnalysisBroken("_maxSize has no constructor initialiser")
+    # the members the bound is computed from keep their constructor value (const, or never written elsewhere)
+    params = [p["n"] for p in ctor.params if finite._ty(p.get("t")) in finite.WIDTH]
+    n = 0
+    for f in fb.in_file(FILE):
+        if not f.ok or not (f.cls == TP or f.name.startswith(TP + "::")) or f.kind == "lambda":
+            continue
+        for e in f.stmts():
+            if not (e.node.get("k") == "mcall" and last(e.node.get("callee", "")) == "spawnWorker" and "root" in e.raw):
+                continue
+            # submit paths are R7's business: there the spawn is behind the `_threads.size() < _maxSize` test
+            if any(b.cond is not None and "_threads.size()" in show(b.cond) for b in f.blocks.values()):
+                continue
+            n += 1
+            r.instance()
+            loops = [b for b in f.blocks.values() if b.term and b.term["k"] in ("ForStmt", "WhileStmt") and b.cond is not None and common.cmp_oriented(b.cond, lambda x: True)
+                     and search(f, ("block", [s for i, s in enumerate(b.succs) if b.edge_label(i) is True][0]), lambda x: x is e, edge_ok=lambda bb, si: bb is not b) is not None]
+            if len(loops) != 1:
+                raise AnalysisBroken("%s: the spawn loop around spawnWorker() at line %s was not recognised" % (short(f.name), e.line))
+            op, lhs, rhs = common.cmp_parts(loops[0].cond)
+            lhs, rhs = strip_casts(lhs), strip_casts(rhs)
+            if op == ">":
+                op, lhs, rhs = "<", rhs, lhs
+            # the counter: a local initialised to 0 and incremented once per iteration
+            ctr_ok = op == "<" and lhs.get("k") == "var" and any(st.node.get("k") == "decl" and any(v["d"] == lhs.get("d") and const_value(strip_casts(v.get("init") or {})) == 0 for v in st.node["vars"]) for st in f.stmts()) \
+                and sum(1 for st in f.stmts() if st.node.get("k") == "un" and st.node.get("op") in ("++", "pre++", "post++") and strip_casts(st.node["v"]).get("d") == lhs.get("d")) == 1
+            if not ctr_ok:
+                raise AnalysisBroken("%s: spawn loop `%s` is not the counting form `i = 0; i < N; ++i`" % (short(f.name), show(loops[0].cond)))
+            bound = rhs
+            if bound.get("k") == "var":
+                ds = [v for st in f.stmts() if st.node.get("k") == "decl" for v in st.node["vars"] if v["d"] == bound.get("d")]
+                wr = [st for st in f.stmts() if st.node.get("k") in ("assign", "bin", "un") and st.node.get("k") != "decl" and strip_casts(st.node.get("lhs") or st.node.get("v") or {}).get("d") == bound.get("d") and (st.node.get("k") != "bin" or st.node.get("op", "").endswith("=") and st.node["op"] not in ("==", "!=", "<=", ">="))]
+                if len(ds) != 1 or ds[0].get("init") is None or wr:
+                    raise AnalysisBroken("%s: the loop bound %s is not a once-initialised local" % (short(f.name), show(bound)))
+                bound = ds[0]["init"]
+            try:
+                tb = _subst_members(bound, inits, {SCALE: "scaling"})
+                tm = _subst_members({"k": "member", "n": MAXF}, inits, {})
+                names = params + ["scaling"]
+                fbnd, _, code = finite.compile_expr(tb, names)
+                fmax, _, _ = finite.compile_expr(tm, names)
+            except finite.NotPure as ex:
+                raise AnalysisBroken("%s: spawn bound `%s` is outside the evaluable fragment (%s)" % (short(f.name), show(bound)[:80], ex))
+            import itertools
+            dom = (0, 1, 2, 3, 5, 2 ** 64 - 1)
+            bad = None
+            for vals in itertools.product(*([dom] * len(params) + [(0, 1)])):
+                if fbnd(*vals) > fmax(*vals):
+                    bad = dict(zip(names, vals))
+                    bad["workers"], bad["max"] = fbnd(*vals), fmax(*vals)
+                    break
+            r.expect(bad is None, f, e, "initial workers above the maximum: %s" % short(f.name),
+                     "%s starts `%s` workers without testing the cap; with the constructor's initialisers that is %s workers for a maximum of %s (%s): the pool runs more "
+                     "threads than its configured maximum from the first moment it accepts work" % (short(f.name), show(bound)[:70], bad and bad["workers"], bad and bad["max"],
+                                                                                                  ", ".join("%s=%s" % kv for kv in (bad or {}).items() if kv[0] in params)),
+                     okdesc="%s: `%s` <= _maxSize for all %d sampled constructor arguments (exact evaluation of the initialisers)" % (short(f.name), show(bound)[:50], len(dom) ** len(params) * 2))
+    if n < 2:
+        raise AnalysisBroken("unconditional spawn loops: %d found (constructor and start() expected)" % n)
+    # the members keep that value
+    for fld in (MAXF, TP + "::_initialSize"):
+        for (f, e, nn, kind) in access.accesses(fb, fld, [FILE]):
+            if kind in ("write", "rw") and f.kind != "ctor":
+                r.instance()
+                r.fail(f, e, "size limit rewritten: %s" % last(fld), "%s is written in %s: the cap the spawn decisions compare against is no longer the constructor's" % (last(fld), short(f.name)))
+    # (b) second shutdown(): every way out is behind the joins, a wait, or a mutex that serialises the callers
+    sd = fn(ctx, "shutdown")
+    joins = [e for e in sd.stmts() if e.node.get("k") == "mcall" and (last(e.node.get("callee", "")) == "shutdownPhase4_JoinThreads" or e.node.get("callee") == "std::thread::join")]
+    if not joins:
+        raise AnalysisBroken("shutdown(): no join found")
+    waits = [e for e in sd.stmts() if e.node.get("k") == "mcall" and e.node.get("callee", "").startswith("std::condition_variable") and last(e.node["callee"]) in common.CV_WAIT]
+    fl = la.fn(sd)
+    ser = []
+    for e in sd.stmts():
+        d = None
+        if e.node.get("k") == "decl":
+            for v in e.node["vars"]:
+                lv = fl.lockvars.get(v["d"])
+                if lv and not lv[2] and lv[0] and all(m != M for m in lv[0]):
+                    d = v["d"]
+        elif e.node.get("k") == "mcall" and e.node.get("callee") in ("std::unique_lock::lock",):
+            o = strip_wrappers(e.node.get("obj"))
+            lv = fl.lockvars.get(o.get("d")) if o is not None and o.get("k") == "var" else None
+            if lv and lv[0] and all(m != M for m in lv[0]):
+                d = o["d"]
+        if d is None:
+            continue
+        # still held at every join: no release of that holder can be followed by a join
+        rel = [x for x in sd.elems() if (x.kind == "dtor" and x.raw.get("d") == d) or (x.kind == "stmt" and x.node.get("k") == "mcall" and x.node.get("callee") in ("std::unique_lock::unlock", "std::unique_lock::release")
+                                                                                       and (strip_wrappers(x.node.get("obj")) or {}).get("d") == d)]
+        if all(search(sd, x, lambda y: y in joins, eh=False) is None for x in rel):
+            ser.append(e)
+    barrier = joins + waits + ser
+
+    def resolved(c):
+        """text of a condition with once-assigned bool locals replaced by what they were assigned"""
+        txt = show(c)
+        for x in walk(c):
+            if x.get("k") == "var" and finite._ty(x.get("t")) == "bool":
+                for st in sd.stmts():
+                    if st.node.get("k") == "bin" and st.node.get("op") == "=" and strip_casts(st.node["lhs"]).get("d") == x.get("d"):
+                        txt += " /* %s */" % show(st.node["rhs"])
+        return txt
+
+    def edge_ok(b, si):
+        if b.cond is None:
+            return True
+        txt = resolved(b.cond)
+        # a call made from a pool task cannot wait for the join of the worker it runs on
+        if "this_thread::get_id()" in txt:
+            return False
+        return True
+    w = search(sd, ("entry",), "exit", stop=lambda x: x in barrier, eh=False, edge_ok=edge_ok)
+    r.instance()
+    r.expect(w is None, sd, None, "second shutdown returns while the first still waits", "ThreadPool::shutdown() can return without having joined the workers, waited for the caller that is joining them, or taken a mutex that caller "
+             "holds until the join (%s): `_shutdown` is set at the START of the first caller's shutdown, so a second shutdown() — or a stop() on a Draining pool — returns at once while an accepted task is still "
+             "running and no worker has been joined" % witness_str(sd, w), okdesc="shutdown(): every return is behind the join, a wait, or the callers' serialising mutex")
+
+
 def run(ctx, ck):
     ck.run_rule("C09-R1", "lock table of the pool", "A1 guarded-by", lambda r: r1(ctx, r))
     ck.run_rule("C09-R2", "acceptance is atomic with the shutdown and queue-limit tests", "A5 + A1, sibling", lambda r: r2(ctx, r))
@@ -441,4 +600,5 @@ def run(ctx, ck):
     ck.run_rule("C09-R6", "result-returning submit: packaged_task protocol", "A10", lambda r: r6(ctx, r))
     ck.run_rule("C09-R7", "thread cap is decided in the inserting critical section", "A5 + A1", lambda r: r7(ctx, r))
     ck.run_rule("C09-R9", "refusals have a closed set of reasons; an accepted task always gets a worker and a wake-up", "A2 dominance + closed table", lambda r: r9(ctx, r))
+    ck.run_rule("C09-R10", "initial workers bounded by the maximum; a second shutdown() waits for the first", "A10 exact evaluation of the constructor's initialisers + A2 barrier search", lambda r: r10(ctx, r))
     ck.run_rule("C09-R8", "condition-variable discipline for the worker wait", "A1", lambda r: r8(ctx, r))
